@@ -149,7 +149,8 @@ func (hw *h2World) done() (bool, error) {
 }
 
 func (hw *h2World) cleanup() {
-	h2.VerifDial, h2.VerifOrder = nil, nil
+	h2.VerifDial, h2.VerifOrder, h2.VerifYieldHook = nil, nil, nil
+	hw.k.ReleaseAll()
 	select {
 	case <-hw.closing:
 	default:
@@ -382,6 +383,9 @@ func runH2(k *kernel.K, focus string) {
 		if d, _ := hw.done(); d || !sv.gotPreface {
 			return // no relay session (yet)
 		}
+		if len(k.Parked()) > 0 {
+			return // a relay goroutine is parked before a mutex (seam R8): not idle
+		}
 		for _, c := range n.Conns() {
 			if c.InFlight() > 0 || c.Unread() > 0 {
 				return
@@ -433,11 +437,17 @@ func runH2(k *kernel.K, focus string) {
 	k.StateFn = func() string {
 		return fmt.Sprintf("%s|%d.%d.%d|%d.%d.%d", n.Fingerprint(), cl.next, len(cl.Recv), cl.pendConn, sv.next, len(sv.Recv), sv.pendConn)
 	}
+	// seam R8: a relay goroutine (reader or writer of either direction) can be parked right before
+	// it takes one of the relay's mutexes, so that the other goroutines run in between
+	k.AddSource(k.GateSource)
+	h2.VerifYieldHook = k.LockYield()
 	cl.SendPreface()
 	k.RunUntil(func() bool {
 		d, _ := hw.done()
-		return d || (cl.next >= len(cl.Script) && sv.next >= len(sv.Script))
+		return d || (cl.next >= len(cl.Script) && sv.next >= len(sv.Script) && len(k.Parked()) == 0)
 	})
+	k.Drain()
+	k.ReleaseAll()
 	k.Drain()
 	// Finally every receiver opens all of its windows wide, so that nothing can legitimately
 	// remain queued in the relay.
